@@ -1,6 +1,81 @@
 import PgFdr.Json
+import PgFdr.Model.Pipeline
+import PgFdr.Driver.C02
+import PgFdr.Driver.C04
+import PgFdr.Driver.C06
 namespace PgFdr.Driver
 open Lean PgFdr
-/-- protocol handlers of property C07: (op name, handler) -/
-def handlersC07 : List (String × (Json → R Json)) := []
+
+def jgrouping (s : String) : R Pipeline.Grouping :=
+  match s with
+  | "no" => .ok .no
+  | "subset" => .ok .subset
+  | "rescued_subset" => .ok .rescuedSubset
+  | "pseudo_gene" => .ok .pseudoGene
+  | s => .error s!"unknown grouping {s}"
+
+def ofOptRat (o : Option Rat) : Json := match o with | some q => ofRat q | none => .null
+
+def ofPass (p : Pipeline.PassOut) : Json :=
+  obj [("groups", ofGroups p.groups),
+       ("infos", ofList (ofList ofEvidence) p.infos),
+       ("pep_list", ofList ofRat p.pepList),
+       ("pep_cutoff", ofRat p.pepCutoff),
+       ("comp_groups", ofGroups p.compGroups),
+       ("comp_infos", ofList (ofList ofEvidence) p.compInfos),
+       ("min_peps", ofList ofOptRat p.minPeps),
+       ("ranked_groups", ofGroups (p.ranking.map (·.group))),
+       ("ranked_infos", ofList (ofList ofEvidence) (p.ranking.map (·.evidence))),
+       ("ranked_scores", ofList ofRat (p.ranking.map (·.score))),
+       ("fdrs", ofList ofRat p.fdrs),
+       ("qvals", ofList ofRat p.qvals),
+       ("rows", ofList (fun d => ofRow (C06.render d)) p.rows)]
+
+/-- `{"op":"pipeline","grouping":"no|subset|rescued_subset|pseudo_gene","razor":bool,
+      "strategy":"picked|picked_group|classic","picking":…,"pil":[…],"thr":R,"psm":R,"keepAll":bool,
+      "shuffles":[[Nat…]…],"cuts":[…],"razor_keys":[[protein,md5hex]…],"scores1":[R…],"scores2":[R…],
+      "rescue_cutoff":R|null}` → the reported rows and every intermediate value of both passes, or `{"err":…}` -/
+def handlePipeline (j : Json) : R Json := do
+  let grouping ← jgrouping (← jstr (← jget j "grouping"))
+  let razor ← jbool (← jget j "razor")
+  let picking ← match jgetOpt j "picking" with
+    | some p => do pure (some (← jstr p))
+    | none => pure none
+  let mode ← jmode (← jstr (← jget j "strategy")) picking
+  let keys ← match jgetOpt j "razor_keys" with
+    | some k => jlist (fun kv => do
+        match kv with
+        | .arr #[p, h] => pure ((← jstr p), (← jstr h))
+        | _ => throw s!"expected [protein, key], got {kv.compress}") k
+    | none => pure []
+  let rc ← match jgetOpt j "rescue_cutoff" with
+    | some c => do pure (some (← jrat c))
+    | none => pure none
+  let inp : Pipeline.Input := {
+    pil := ← jlist jpepinfo (← jget j "pil")
+    thr := ← jrat (← jget j "thr")
+    psm := ← jrat (← jget j "psm")
+    keepAll := ← jbool (← jget j "keepAll")
+    shuffles := ← jlist (jlist jnat) (← jget j "shuffles")
+    cuts := ← jlist jcut (← jget j "cuts")
+    razorKeys := keys
+    scores1 := ← jlist jrat (← jget j "scores1")
+    scores2 := ← jlist jrat (← jget j "scores2")
+    rescueCutoff := rc }
+  match Pipeline.run ⟨grouping, razor, mode⟩ inp with
+  | .error e => pure (ofErr e)
+  | .ok r =>
+    pure (obj [
+      ("rows", ofList (fun d => ofRow (C06.render d)) r.rows),
+      ("pass1", ofPass r.pass1),
+      ("rescue_score", ofOptRat r.rescueScore),
+      ("rescue", match r.rescue with
+        | none => .null
+        | some out => obj [("filtered", ofList ofPepInfo out.filtered), ("rescued", ofGroups out.rescued),
+                           ("groups", ofGroups out.groups), ("obsolete", ofGroups out.obsolete),
+                           ("obsolete_infos", ofList (ofList ofEvidence) out.obsoleteInfos)]),
+      ("pass2", match r.pass2 with | none => .null | some p => ofPass p)])
+
+/-- protocol handlers of property C07 (and of the pipeline-level correspondences of C01, C06, C18) -/
+def handlersC07 : List (String × (Json → R Json)) := [("pipeline", handlePipeline)]
 end PgFdr.Driver
